@@ -10,7 +10,8 @@ package main
 //            block; truncated and corrupted streams).  Every stream is delivered at once (the reference), byte
 //            by byte, in two pieces at every offset, in all 2^(n-1) ways when it is at most 12 bytes long, in
 //            random pieces with random short reads, and with silences longer than ReadTimeout in front of
-//            packets.  Direct oracle: callback trace, decoded values, error and the outcome of the follow-up
+//            packets - in front of some of them and in front of every one of them at once (real deadlines, the real
+//            receive loop of Client.Do retrying timeout after timeout).  Direct oracle: callback trace, decoded values, error and the outcome of the follow-up
 //            Ping (= how many bytes Do consumed) equal the reference run's.
 //
 //   rd ...   proto.Reader driven directly over c08Conn (virtual time) by a list of Reader calls; the observation
@@ -443,6 +444,7 @@ type c08Out struct {
 	ping     string
 	timeouts int
 	reads    int
+	rem      int // bytes of the script the client never read (after Do and the follow-up Ping)
 }
 
 func (o c08Out) String() string {
@@ -518,6 +520,7 @@ func c08RunDo(st *c08Stream, evs []c08Ev, pattern []int, realtime bool) (out c08
 	conn.mu.Lock()
 	out.timeouts, out.reads = conn.timeouts, conn.reads
 	conn.mu.Unlock()
+	out.rem = conn.remaining()
 	_ = client.Close()
 	return out
 }
@@ -549,6 +552,8 @@ func c08CutsSx(cuts []int) string {
 	}
 	return sx(s...)
 }
+
+var c08GapsEveryRuns int // rotates the delivery of the gaps-every runs: at once, byte by byte, random pieces
 
 type c08Seg struct {
 	kind    string
@@ -689,6 +694,29 @@ func c08DoStream(h *H, st *c08Stream, budget int, gapBudget *int) {
 			if got.timeouts == 0 && want > 0 && ref.err != "" && !strings.HasPrefix(st.desc, "garbage") && st.tail == nil && len(st.pong) > 0 && got.ping == "ok" {
 				oracle = "FAIL:silences were scripted but no read timed out (the deadline is not armed)"
 			}
+			// a well-formed stream read to its last byte: every silence in front of a packet was met by the
+			// packet-code read, under its deadline, and retried (a slow machine can only add timeouts)
+			wellFormed := !strings.Contains(st.desc, "altered") && !strings.Contains(st.desc, "truncated") && !strings.HasPrefix(st.desc, "garbage")
+			if oracle == "ok" && wellFormed && st.tail == nil && len(sg.inside) == 0 && got.rem == 0 && got.ping == "ok" && got.timeouts < want {
+				oracle = fmt.Sprintf("FAIL:%d silences in front of packets were scripted and the whole stream was read, but only %d reads timed out (a deadline is not armed for every packet-code read)", want, got.timeouts)
+			}
+			np := 0
+			for _, k := range sg.gaps {
+				if k > 0 {
+					np++
+				}
+			}
+			switch {
+			case np >= 3:
+				h.Stat("do.gaps.before>=3packets")
+			case np == 2:
+				h.Stat("do.gaps.before-2packets")
+			default:
+				h.Stat("do.gaps.before-1packet")
+			}
+			if np == len(st.packets) && np > 1 {
+				h.Stat("do.gaps.before-every-packet")
+			}
 		}
 		h.Emit(c08Case(st, sg), "-", oracle)
 		h.Stat("do.seg." + sg.kind)
@@ -825,6 +853,45 @@ func c08DoStream(h *H, st *c08Stream, budget int, gapBudget *int) {
 			sg.pattern = []int{1 + h.R.Intn(7)}
 		}
 		run(sg, true)
+	}
+	// silences in front of EVERY packet of the stream at once (one, sometimes two or three), delivered at once, byte by
+	// byte or in random pieces with short reads: the whole receive loop, timeout after timeout
+	if np := len(st.packets); np >= 2 && np <= 14 && *gapBudget >= 2*np {
+		gaps := map[int]int{}
+		total := 0
+		for pi := 0; pi < np; pi++ {
+			k := 1
+			switch h.R.Intn(6) {
+			case 0:
+				k = 2
+			case 1:
+				k = 3
+			}
+			gaps[pi] = k
+			total += k
+		}
+		if total <= *gapBudget {
+			*gapBudget -= total
+			sg := c08Seg{kind: "gaps-every", gaps: gaps}
+			c08GapsEveryRuns++
+			switch c08GapsEveryRuns % 3 {
+			case 0:
+				if n <= 3000 {
+					sg.kind = "gaps-every+bytes"
+					for i := 1; i < n; i++ {
+						sg.cuts = append(sg.cuts, i)
+					}
+				}
+			case 1:
+				sg.kind = "gaps-every+rand"
+				for j := 0; j < 8 && n > 1; j++ {
+					sg.cuts = append(sg.cuts, 1+h.R.Intn(n-1))
+				}
+				sortInts(sg.cuts)
+				sg.pattern = []int{1 + h.R.Intn(7), 0, 1}
+			}
+			run(sg, true)
+		}
 	}
 	// a pause of the stream inside a packet (after its code, in the middle of its body): no deadline is armed there,
 	// so it must be waited out
@@ -1390,7 +1457,7 @@ func runC08(h *H) {
 	// client family: the four tiny streams with all their splits first (about 2800 runs), then results,
 	// malformed streams, one big stream and one long exception, then more of the same while the budget lasts
 	left := h.N - nrd
-	gapBudget := 50 + h.N/150
+	gapBudget := 60 + h.N/90
 	if h.Tier == "thorough" {
 		gapBudget = 600
 	}
